@@ -212,7 +212,7 @@ def execute(model, init, api, limit=3000):
     g = copy.deepcopy(init)
     try:
         with core.alarm(20):
-            r = ('ok', refval.canon(bare_script.execute_script(model, {'globals': g, 'logFn': logs.append, 'maxStatements': limit})))
+            r = ('ok', refval.canon(bare_script.execute_script(model, {'globals': g, 'logFn': logs.append, 'maxStatements': limit, 'fetchFn': lambda req: '', 'systemPrefix': 'sys/'})))
     except core.CaseTimeout:
         return None
     except rt_err as exc:
@@ -246,6 +246,14 @@ def check_model(model, init, acc, api, name, run_edits=True):
         return
     if not isinstance(w1, list) or not all(isinstance(w, str) for w in w1):
         acc.violation('lint-result-type', repr(w1)[:300], case)
+        return
+    try:
+        w4 = model_mod.lint_script(json.loads(txt))  # an equal model without any shared sub-object
+    except Exception as exc:  # pylint: disable=broad-except
+        acc.violation('lint-raised', f'on a JSON copy: {type(exc).__name__}: {exc}', case)
+        return
+    if w1 != w4:
+        acc.violation('lint-depends-on-object-identity', f'the model as built: {w3!r:.300}; an equal JSON copy: {w4!r:.300}', case)
         return
     if w1 != w2 or w1 != w3:
         acc.violation('lint-nondeterministic', f'{w1!r:.300} / {w2!r:.300} / {w3!r:.300}', case)
@@ -366,6 +374,22 @@ def run_models(spec, acc, api):
                         for v in node:
                             ren(v)
                 ren(stmts)
+            if rnd.random() < 0.15:
+                # include statements somewhere in the global list (an include cannot define a label of the includer's scope)
+                for _ in range(rnd.randint(1, 2)):
+                    stmts.insert(rnd.randint(0, len(stmts)), {'include': {'includes': [{'url': rnd.choice(['empty.bare', 'lib/empty.bare'])}] + ([{'url': 'sys.bare', 'system': True}] if rnd.random() < 0.3 else [])}})
+            if rnd.random() < 0.15:
+                # a model built by a program: the SAME expression object sits in two scopes (two functions, or a function and the
+                # global list) - lint looks at values, not at object identity
+                donors = [st for st in stmts if 'function' in st and st['function']['statements']]
+                if len(donors) >= 1:
+                    src = rnd.choice(donors)['function']['statements']
+                    exprs = [st['expr']['expr'] for st in src if 'expr' in st] + [st['return']['expr'] for st in src if 'return' in st and 'expr' in st['return']]
+                    if exprs:
+                        shared_e = rnd.choice(exprs)
+                        target = rnd.choice(donors)['function']['statements'] if rnd.random() < 0.6 else stmts
+                        target.insert(rnd.randint(0, len(target)), {'expr': {'name': rnd.choice(['n', 'm']), 'expr': shared_e}})
+                        target.append({'expr': {'expr': {'function': {'name': 'systemLog', 'args': [shared_e]}}}})
             if rnd.random() < 0.3:
                 for st in stmts:
                     if 'function' in st and st['function'].get('args') and rnd.random() < 0.5:
